@@ -167,6 +167,11 @@ def run_batch(spec):
         for k in keys:
             twins[k].set_reference(sels[k](X) if k in sels else X)
         ev.append(event("set_reference", ens, keys, twins, spec["election"]["kind"]))
+        if rng.random() < 0.35:       # reset() right after set_reference, before any update, must reach every member too
+            ens.reset()
+            for k in keys:
+                twins[k].reset()
+            ev.append(event("reset", ens, keys, twins, spec["election"]["kind"]))
 
     setref()
     for t in range(spec["n"]):
